@@ -2362,8 +2362,9 @@ class Statements(Sequence, Immutable):
                 raise KeyError(f"Could not find symbol {symbol}")
         g = self._create_dependency_graph()
         symbs = self[i].rhs_symbols
-        if i == 0 or not g:
-            # Special case for models with only one statement or no dependent statements
+        if i == 0 or i not in g:
+            # Special case for the first statement or a statement without
+            # any dependency among the other statements (not a node of the graph)
             return symbs
         for j, _ in nx.bfs_predecessors(g, i, sort_neighbors=lambda x: reversed(sorted(x))):
             statement = self[j]
